@@ -26,6 +26,7 @@ var histAlphabet = []string{
 	"AUTH_OK", "AUTH_FAIL", "AUTH_CANCEL", "AUTH_2STEP",
 	"STARTTLS", "QUIT", "UNKNOWN", "HELP", "EMPTY", "SHORT",
 	"DATA_BIG", "BDAT_BIG", "BDAT_BIG_LAST",
+	"MAIL_BIN", "MAIL_BIN_REJ", "MAIL_BIN_PARAM",
 }
 
 // histBig is the payload size of the *_BIG commands; histLimit the size limit used by the
@@ -58,6 +59,7 @@ type rcmd struct {
 	Token      string // token expected in the negative reply when the backend rejects
 	Reject     bool   // the backend script rejects this command / message
 	Big        bool   // the payload exceeds histLimit
+	Binary     bool   // mail: BODY=BINARYMIME
 	Sync       bool
 }
 
@@ -93,6 +95,16 @@ func hRender(i int, abs string, mode srvMode) rcmd {
 		c.Kind, c.Arg = "mail", fmt.Sprintf("rejs%d@x.test", i)
 		c.Send = line("MAIL FROM:<" + c.Arg + ">")
 		c.Reject, c.Token = true, "v#"+c.Arg
+	case "MAIL_BIN":
+		c.Kind, c.Arg, c.Binary = "mail", fmt.Sprintf("s%d@x.test", i), true
+		c.Send = line("MAIL FROM:<" + c.Arg + "> BODY=BINARYMIME")
+	case "MAIL_BIN_REJ":
+		c.Kind, c.Arg, c.Binary = "mail", fmt.Sprintf("rejs%d@x.test", i), true
+		c.Send = line("MAIL FROM:<" + c.Arg + "> BODY=BINARYMIME")
+		c.Reject, c.Token = true, "v#"+c.Arg
+	case "MAIL_BIN_PARAM":
+		c.Kind = "bad"
+		c.Send = line(fmt.Sprintf("MAIL FROM:<p%d@x.test> BODY=BINARYMIME FOO=1", i))
 	case "MAIL_BAD":
 		c.Kind = "bad"
 		c.Send = line(fmt.Sprintf("MAIL FROM:<bad%d", i))
@@ -357,6 +369,7 @@ func histRig(h hcase) *wire.Rig {
 		s.MaxRecipients = h.MaxRcpt
 		s.MaxMessageBytes = h.MaxBytes
 		s.AllowInsecureAuth = true
+		s.EnableBINARYMIME = true
 		s.TLSConfig = wire.ServerTLS()
 	})
 	histHooks(rig)
@@ -541,6 +554,7 @@ type txnState struct {
 	nErrors  int
 	lastHelo string
 	bigSeen  bool // a *_BIG chunk was accepted into the open transfer
+	binary   bool // the open transaction was declared BODY=BINARYMIME (DATA may be refused: RFC 3030)
 }
 
 func all5xx(rs []wire.Reply) bool {
@@ -674,7 +688,9 @@ func histMonitor(run *histRun) []hviol {
 
 		// ---------------- C03 / C04 per kind
 		judge := !st.tainted
-		endTxn := func() { st.mailOK, st.rcpts, st.chunk, st.tainted, st.bigSeen = false, 0, false, false, false }
+		endTxn := func() {
+			st.mailOK, st.rcpts, st.chunk, st.tainted, st.bigSeen, st.binary = false, 0, false, false, false, false
+		}
 		dataBegins += len(datas)
 		switch c.Kind {
 		case "hello":
@@ -758,6 +774,7 @@ func histMonitor(run *histRun) []hviol {
 			}
 			if all2xx(rs) {
 				st.mailOK = true
+				st.binary = c.Binary
 			}
 		case "rcpt":
 			if !st.mailOK && judge {
@@ -816,7 +833,7 @@ func histMonitor(run *histRun) []hviol {
 					if !all5xx(rs) && len(rs) > 0 {
 						add("C03:out-of-order-not-5xx", "%s: DATA without recipients answered %s", name, codes(rs))
 					}
-				} else if !o.Body {
+				} else if !o.Body && !st.binary {
 					add("C03:data-refused", "%s: DATA with %d accepted recipient(s) answered %s", name, st.rcpts, codes(rs))
 				}
 			}
